@@ -133,7 +133,7 @@ Definition special (p : prim) (args : sx) : M sx :=
   | PIf, Cons c (Cons thn els) =>
       v <- eval c ;; if truthy v then eval thn else progn (items els) Nil
   | PCond, _ => cond_clauses (items args)
-  | PAnd, _ => and_forms (items args) Nil
+  | PAnd, _ => and_forms (items args) T
   | POr, _ => or_forms (items args)
   | PNot, Cons a _ => v <- eval a ;; ret (of_bool (null v))
   | PXor, Cons a (Cons b _) =>
@@ -216,7 +216,7 @@ Definition sstep (t : task) : M sx :=
       end
   | TWhile c body last =>
       v <- eval c ;;
-      if null v then ret last else r <- progn (items body) Nil ;; rec (TWhile c body r)
+      if null v then ret Nil else r <- progn (items body) Nil ;; rec (TWhile c body r)
   | TDotimes var i n body =>
       if (i <? n)%Z then
         _ <- sym_set_unchecked var (Int i) ;; _ <- progn (items body) Nil ;;
